@@ -51,7 +51,7 @@ theorem strict_refines_default (F : FilterSem) (hF : Refines F) (k : Kind) (g : 
     rw [this]
     exact h
 
-/-- the same for the filter table the driver runs (upcase, append, size, first, join, plus, default, split) -/
+/-- the same for the filter table the driver runs (upcase, append, size, first, join, plus, default, split, round) -/
 theorem strict_refines_default_builtin (k : Kind) (g : List (String × Data)) (s : Stmt) (out : String)
     (h : renderData builtinFilters k g s = .ok out) : renderData builtinFilters .dflt g s = .ok out :=
   strict_refines_default builtinFilters builtin_refines k g s out h
@@ -101,7 +101,7 @@ theorem strict_undefined_raises_compare (e : Env) (p q : Prim) (v : Val) (hm : M
     | undef k =>
       cases op <;> first | exact absurd rfl hop | (cases k <;> rfl)
 
-/-- filtering: each of the eight concrete filters raises `UndefinedError` on a `StrictUndefined` input, whatever
+/-- filtering: each of the nine concrete filters raises `UndefinedError` on a `StrictUndefined` input, whatever
     the (right number of) arguments are -/
 theorem strict_undefined_raises_filter (a : Val) :
     builtinFilters "upcase" (.undef .strict) [] = .error .undefined ∧
@@ -111,8 +111,37 @@ theorem strict_undefined_raises_filter (a : Val) :
     builtinFilters "join" (.undef .strict) [a] = .error .undefined ∧
     builtinFilters "plus" (.undef .strict) [a] = .error .undefined ∧
     builtinFilters "default" (.undef .strict) [a] = .error .undefined ∧
-    builtinFilters "split" (.undef .strict) [a] = .error .undefined := by
-  refine ⟨?_, ?_, ?_, ?_, ?_, ?_, ?_, ?_⟩ <;> simp [builtinFilters] <;> rfl
+    builtinFilters "split" (.undef .strict) [a] = .error .undefined ∧
+    builtinFilters "round" (.undef .strict) [a] = .error .undefined := by
+  refine ⟨?_, ?_, ?_, ?_, ?_, ?_, ?_, ?_, ?_⟩ <;> simp [builtinFilters] <;> rfl
+
+/-- `is_undefined(u)` itself raises for `StrictUndefined` and `StrictDefaultUndefined` (the ABC instance check reads
+    `u.__class__`), answers `True` for the other two kinds -/
+theorem is_undefined_pokes :
+    isUndef (.undef .strict) = .error .undefined ∧ isUndef (.undef .strictDefault) = .error .undefined ∧
+    isUndef (.undef .falsy) = .ok true ∧ isUndef (.undef .dflt) = .ok true := ⟨rfl, rfl, rfl, rfl⟩
+
+/-- filtering *with* a missing variable: as the argument of a filter that evaluates it — required (`append`, `join`,
+    `plus`), tested with `isinstance(sep, Undefined)` (`split`) or optional and tested with `is_undefined`
+    (`round`) — a `StrictUndefined` raises `UndefinedError`, whatever plain value the filter is applied to -/
+theorem strict_undefined_raises_filter_argument (d : Data) :
+    builtinFilters "append" (.data d) [.undef .strict] = .error .undefined ∧
+    builtinFilters "join" (.data d) [.undef .strict] = .error .undefined ∧
+    builtinFilters "plus" (.data d) [.undef .strict] = .error .undefined ∧
+    builtinFilters "split" (.data d) [.undef .strict] = .error .undefined ∧
+    builtinFilters "round" (.data d) [.undef .strict] = .error .undefined := by
+  refine ⟨?_, ?_, ?_, ?_, ?_⟩
+  · cases d <;> simp [builtinFilters, fAppend, strArg, softStr, poke, pokeErr]
+  · simp [builtinFilters, fJoin, softStr, poke, pokeErr]
+  · cases d <;> simp [builtinFilters, fPlus, numArg, poke, pokeErr]
+  · cases d <;> simp [builtinFilters, fSplit, strArg, poke, pokeErr]
+  · cases d <;> simp [builtinFilters, fRound, numArg, isUndef, poke, pokeErr]
+
+/-- the reviewed exception: `default` hands its argument over without looking at it (whoever uses the result
+    pokes it) -/
+theorem default_argument_is_not_touched (d : Data) (k : Kind) :
+    ∃ r, builtinFilters "default" (.data d) [.undef k] = .ok r := by
+  simp [builtinFilters, fDefault]
 
 /-- … and so does the whole output statement `{{ missing | f: args }}` -/
 theorem strict_undefined_raises_filtered_output (e : Env) (p : Prim) (hm : Missing e p) (a : Val) (q : Prim)
